@@ -471,6 +471,37 @@ Definition v_step (w : vworld) (op : vop) : vworld :=
 
 Definition v_init (n : nat) (alts : Z) : vworld := {| v_objs := repeat None n; v_stt := stats0; v_n := alts |}.
 
+(* ---- converting operations ------------------------------------------------------- *)
+(* A Variant also accepts values of types that are not alternatives: a type T that exactly one alternative k is
+   constructible from (construction: Variant(T&&); assignment: v = T{..}), and other Variant types
+   Variant<Other...> whose every alternative is convertible (construction visits the source and CONSTRUCTS the first
+   alternative constructible from the visited value; assignment visits the source and ASSIGNS the value, which takes
+   the tagged path when its type is an alternative).  In terms of the state machine each of them is one of the
+   operations above; [ctor_target] / [assign_target] say which alternative of this Variant a value of the other
+   Variant's alternative j lands in (-1: the source is empty). *)
+Inductive vcop :=
+| VCOp (op : vop)
+| VCConvConstruct (i : nat) (k : Z) (x : Z)
+| VCConvAssign (i : nat) (k : Z) (x : Z)
+| VCFromOther (i : nat) (j : Z) (x : Z)
+| VCAssignOther (i : nat) (j : Z) (x : Z).
+
+Definition vc_to_vop (ctor_target assign_target : Z -> Z) (c : vcop) : vop :=
+  match c with
+  | VCOp op => op
+  | VCConvConstruct i k x => VVal i k x false
+  | VCConvAssign i k x => VSet i k x false
+  | VCFromOther i j x => if (j <? 0)%Z then VNew i else VVal i (ctor_target j) x false
+  | VCAssignOther i j x => if (j <? 0)%Z then VSetEmpty i else VSet i (assign_target j) x false
+  end.
+
+Definition vc_step (ct at_ : Z -> Z) (w : vworld) (c : vcop) : vworld := v_step w (vc_to_vop ct at_ c).
+
+(* the harness's pair: Variant<float, TcA, int, TcB> receiving from Variant<SrcA, SrcB, float, int>.  Construction from
+   an int picks the float (the first alternative constructible from int); assignment of an int assigns the int. *)
+Definition harness_ctor_target (j : Z) : Z := if (j =? 0)%Z then 1 else if (j =? 1)%Z then 3 else 0.
+Definition harness_assign_target (j : Z) : Z := if (j =? 0)%Z then 1 else if (j =? 1)%Z then 3 else if (j =? 2)%Z then 0 else 2.
+
 (* ================================ UniqueHandle<Policy> ============================ *)
 (* a handle value: -1 = empty (Policy::Default()); the policy counts Close calls per
    resource; [closed] is the multiset of resources Close was called on *)
